@@ -370,6 +370,16 @@ func runCase(c Case) (res simResult) {
 		if !allInserted() {
 			return fail("C03/sim", "a source is still blocked inserting a seed ten virtual minutes after the stop returned")
 		}
+		// the stage workers are gone: the pause protocol must not wait for them any more (a worker leaves the manager when it
+		// exits), whether the stop came while paused or not
+		if !mustReturn(func() {
+			if !pause.IsPaused() {
+				pause.Pause("after the stop")
+			}
+			pause.Resume()
+		}) {
+			return fail("C14/pipeline", "after the stop (all stage workers have exited) a Pause()/Resume() does not return within a virtual hour: a departed worker is still subscribed and Resume() waits for its acknowledgement")
+		}
 		// a stop must not make the pipeline lie to the source: whatever was reported finished - before or during the
 		// stop - has a complete tree, and is reported once (an unfinished seed simply stays with the source)
 		seenFin := map[string]int{}
@@ -683,9 +693,21 @@ func runCase(c Case) (res simResult) {
 func propSim(t veriflib.TB, outer *testing.T, c Case, feats map[string]bool) {
 	var res simResult
 	veriflib.Journal("C01", "C01/pipeline", c)
-	veriflib.Bubble(outer, "C01", "C01/pipeline", c, func(st *testing.T) {
-		res = runCase(c)
-	})
+	func() {
+		// a verdict reached while a call of the code under test is still blocked (that is what the verdict is about) makes
+		// the bubble end with goroutines left behind, which synctest reports by panicking: the verdict stands, the panic
+		// is its consequence
+		defer func() {
+			if r := recover(); r != nil {
+				if res.Viol == "" || !strings.Contains(fmt.Sprint(r), "blocked goroutines remain") {
+					panic(r)
+				}
+			}
+		}()
+		veriflib.Bubble(outer, "C01", "C01/pipeline", c, func(st *testing.T) {
+			res = runCase(c)
+		})
+	}()
 	veriflib.JournalDone()
 	if res.Viol != "" {
 		if res.Facet == "harness" {
